@@ -1,7 +1,7 @@
 (** Correspondence + spec search for the policy lab: cache operation sequences (kind 3),
     provider iteration (kind 4), reverse DNS against a stalled resolver (kind 5). *)
 From Coq Require Import List ZArith Bool.
-From TR Require Import Lib.Sx Pol.Cache Pol.PublicIp Run.Eng Generated.Consts.
+From TR Require Import Lib.Sx Pol.Cache Pol.PublicIp Pol.Request Run.Eng Generated.Consts.
 Import ListNotations.
 Open Scope Z_scope.
 
@@ -104,6 +104,26 @@ Definition check_pol (prop : Z) (inp impl : sx) : sx :=
           else if (prop =? 18) && negb ((ok =? 1) && zlist_eqb (map (fun d => if answered d then 1 else 0) delays) got) then verdict V_SPECFAIL cls [18; 4] (L [])
           else if (ok =? 1) && zlist_eqb (map (fun d => if answered d then 1 else 0) delays) got && ((negb (prop =? 8)) || (m_el =? elapsed))
           then verdict V_OK cls [] (L []) else verdict V_DIVERGE cls [] (L [A m_el])
+      | _, _ => badcase
+      end
+  | _, _ => badcase
+  end.
+
+(** ---- kind 21: elapsed time of a whole request *)
+Definition check_req (prop : Z) (inp impl : sx) : sx :=
+  match inp, impl with
+  | L [A 21; A max_ttl; A timeout; L runs; L e2es; A fail; A rdns; A pub], L [A status; A elapsed] =>
+      match sx_zs runs, sx_zs e2es with
+      | Some runs, Some e2es =>
+          let cls := 1 + 2 * Z.min 3 (Z.of_nat (length runs)) + 8 * Z.min 3 (Z.of_nat (length e2es)) + (if rdns =? -2 then 0 else 32) + (if pub =? -2 then 0 else 64) in
+          let failed := 0 <=? fail in
+          let e := Z.of_nat (length e2es) in
+          (* C08: within the bound computed from the parameters and the longest part of each kind *)
+          let bound := request_bound max_ttl timeout e (zmax_list runs) (zmax_list e2es) (Z.max 0 pub) (negb (rdns =? -2)) (negb (pub =? -2)) in
+          if (prop =? 8) && (bound <? elapsed) then verdict V_SPECFAIL cls [8; 4] (L [A bound])
+          else
+            let m := request_elapsed max_ttl timeout runs e2es failed rdns pub in
+            if (status =? (if failed then 1 else 0)) && (m =? elapsed) then verdict V_OK cls [] (L []) else verdict V_DIVERGE cls [] (L [A m])
       | _, _ => badcase
       end
   | _, _ => badcase
